@@ -17,6 +17,9 @@ CFG = {
         "Parsley.C18.run_fuel_sufficient",
         "Parsley.C18.run_nonterminating_without_hyp",
         "Parsley.C18.peg_star_nonconsuming_diverges",
+        "Parsley.C18.pegEval_total", "Parsley.C18.pegEval_eq_peg", "Parsley.C18.run_eq_pegEval",
+        "Parsley.C18.peg_consumed_le", "Parsley.C18.peg_consumes_pos",
+        "Parsley.C18.run_returns_peg_any", "Parsley.C18.run_never_panics_any",
     ],
     "partial": {},
     "n": {"quick": 6000, "thorough": 400000},
@@ -25,6 +28,9 @@ CFG = {
             "exhaustive: every expression of depth <= 1 (quick) / <= 2 (thorough; 1515 expressions, those with a non-consuming star "
             "body excluded as the statement does) over the three guarded byte parsers a,b,c x every string of length <= 5 (quick) / "
             "<= 6 (thorough, 1093 strings) over {a,b,c} at cursor 0, and depth <= 1 x strings <= 3 behind a 2-byte prefix at cursor 2; "
+            "the same with RAW operands (harness-defined byte parsers that consume the byte even when their guard rejects it, like the "
+            "crate's parsers that do not restore on failure) as leaves: depth <= 1 (quick) / <= 2 (thorough) x strings <= 4, so that every "
+            "cursor restore the combinators perform themselves is observable; "
             "sampled: depth-3 expressions (random top combinator over depth-<=2 operands) x random strings <= 6; random beyond: depth "
             "<= 5, guards ==, !=, range, unguarded, bytes incl. NUL/0x7f/0x80/0xff, buffers <= 10 (quick) / 14 (thorough), random cursor. "
             "Non-trivial = the expression has >= 2 combinators, its star bodies consume, and >= 2 bytes of input remain after the cursor.",
@@ -32,7 +38,8 @@ CFG = {
         "modelled, not verified: ParseBuffer::get_cursor/buf/set_cursor_unsafe as index arithmetic on a whole buffer with the "
         "assert as an explicit panic outcome (restricted views: C17)",
         "guards are pure predicates on the character (Rust type FnMut(&char)->bool would allow stateful closures; none in the crate)",
-        "harness: the type-erased Dyn wrapper re-packs each combinator's typed result into a uniform tree without touching the cursor",
+        "harness: the type-erased Dyn wrapper re-packs each combinator's typed result into a uniform tree without touching the cursor; "
+        "RawChar (a harness-defined operand built on the crate's parse_prim) is modelled by Comb.rawChar",
     ],
     "assumptions": [
         "star bodies consume input (the statement's own side condition; run_nonterminating_without_hyp shows it is necessary)",
